@@ -71,6 +71,11 @@ structure St where
   prev : Nat → Nat := fun _ => 0
   desc : Nat → Nat := fun _ => 0
   avail : Nat := 0
+  /-- The process-global chunk-granular SFT map (`policy::sft_map::SFTSparseChunkMap`, the SFT map of
+  every non-contiguous layout): chunk index ↦ the space whose SFT is stored there, named by its
+  descriptor; `0` = `EMPTY_SPACE_SFT`. It is not a field of `Map32Inner`; it is carried here because
+  `free_contiguous_chunks_no_lock` writes it (`SFT_MAP.clear(chunk_start)`). -/
+  sft : Nat → Nat := fun _ => 0
 
 def upd (f : Nat → Nat) (k v : Nat) : Nat → Nat := fun x => if x = k then v else f x
 
@@ -121,7 +126,9 @@ def freeNoLock (debug : Bool) (st : St) (chunk : Nat) : Option (St × Nat) :=
   let nextL := if prev != 0 then upd st.next prev next else st.next
   some ({ st with fl := fl, avail := st.avail + chunks,
                   prev := upd prevL chunk 0, next := upd nextL chunk 0,
-                  desc := fun c => if chunk ≤ c ∧ c < chunk + chunks then 0 else st.desc c }, chunks)
+                  desc := fun c => if chunk ≤ c ∧ c < chunk + chunks then 0 else st.desc c,
+                  -- `SFT_MAP.clear(chunk_start)` inside the same per-chunk loop
+                  sft := fun c => if chunk ≤ c ∧ c < chunk + chunks then 0 else st.sft c }, chunks)
 
 /-- `free_all_chunks(any_chunk)`; `fuel` bounds the two `while` loops. -/
 def freeAllLoop (debug : Bool) (sel : St → Nat → Nat) : Nat → St → Nat → Option St
@@ -148,5 +155,69 @@ def nextRegion (st : St) (chunk : Nat) : Nat :=
 
 /-- `get_contiguous_region_chunks(start)` for a run start. -/
 def regionChunks (st : St) (chunk : Nat) : Nat := st.fl.sizeOf chunk
+
+/-! ## The SFT write of `Space::grow_space`
+
+`Space::acquire` → `pr.get_new_pages` (→ `grow_discontiguous_space` → `allocate_contiguous_chunks`) →
+`grow_space(start, bytes, new_chunk = true)` → `SFT_MAP.update(space, start, bytes)`
+(`src/policy/space.rs`, `src/policy/sft_map.rs` `SFTSparseChunkMap::update` / `set`). -/
+
+/-- `SFTSparseChunkMap::update(space, start, bytes)` for a chunk-aligned `start` and `bytes` = `chunks`
+whole chunks: `set(chunk, space)` for `chunk in first..last`. The space is named by its descriptor
+`d ≠ 0`. `set` carries `debug_assert!(old == EMPTY || new == EMPTY || old == new)`: the result is
+`false` when it fires (the chunks before the offending one have been written). -/
+def sftUpdate (debug : Bool) (st : St) (d start chunks : Nat) : St × Bool :=
+  match (if debug then (List.range' start chunks).find? (fun c => st.sft c != 0 && st.sft c != d) else none) with
+  | some b => ({ st with sft := fun c => if start ≤ c ∧ c < b then d else st.sft c }, false)
+  | none => ({ st with sft := fun c => if start ≤ c ∧ c < start + chunks then d else st.sft c }, true)
+
+/-- `SFTSparseChunkMap::get_checked(addr)` at chunk granularity: `has_sft_entry` =
+`chunk_index < max_chunks`; `0` = `EMPTY_SPACE_SFT`. -/
+def sftGet (st : St) (maxChunks chunk : Nat) : Nat := if chunk < maxChunks then st.sft chunk else 0
+
+/-! ## The page-resource layer (`src/util/heap/pageresource.rs`, `CommonPageResource`)
+
+Every discontiguous space has a `CommonPageResource` with its own `head_discontiguous_region`; all of
+them share the VM map. `heads sp` = that variable of space `sp` as a chunk index (`0` = `Address::ZERO`). -/
+
+structure PR where
+  st : St
+  heads : Nat → Nat := fun _ => 0
+
+/-- `CommonPageResource::grow_discontiguous_space(descriptor, chunks, None)`:
+`new_head = vm_map.allocate_contiguous_chunks(descriptor, chunks, *head, None)`; a zero result leaves
+the head alone, otherwise `*head = new_head`. -/
+def PR.grow (debug : Bool) (p : PR) (sp d chunks : Nat) : PR × R :=
+  match allocate debug p.st d chunks (p.heads sp) with
+  | (st', .val c) =>
+    if c == 0 then ({ p with st := st' }, .val 0)
+    else ({ st := st', heads := upd p.heads sp c }, .val c)
+  | (st', r) => ({ p with st := st' }, r)
+
+/-- `CommonPageResource::release_discontiguous_chunks(chunk)`: the head is advanced to the released
+region's successor FIRST (`if chunk == *head { *head = vm_map.get_next_contiguous_region(chunk) }`),
+then `vm_map.free_contiguous_chunks(chunk)` (which zeroes the region's links). `none` = panic. -/
+def PR.release (debug : Bool) (p : PR) (sp chunk : Nat) : Option PR :=
+  let heads := if chunk == p.heads sp then upd p.heads sp (nextRegion p.st chunk) else p.heads
+  match freeNoLock debug p.st chunk with
+  | some (st', _) => some { st := st', heads := heads }
+  | none => none
+
+/-- `CommonPageResource::release_all_chunks()`: `vm_map.free_all_chunks(*head); *head = ZERO`. -/
+def PR.releaseAll (debug : Bool) (p : PR) (sp : Nat) : Option PR :=
+  match freeAll debug p.st (p.heads sp) with
+  | some st' => some { st := st', heads := upd p.heads sp 0 }
+  | none => none
+
+/-- What `Space::acquire` does when its page resource needs a new region: grow, then publish the
+region in the SFT map. `(state, result, sft-assertion-ok)`. -/
+def PR.growSpace (debug : Bool) (p : PR) (sp d chunks : Nat) : PR × R × Bool :=
+  match p.grow debug sp d chunks with
+  | (p', .val c) =>
+    if c == 0 then (p', .val 0, true)
+    else
+      let (st', ok) := sftUpdate debug p'.st d c chunks
+      ({ p' with st := st' }, .val c, ok)
+  | (p', r) => (p', r, true)
 
 end Mmtk.Map32
